@@ -300,7 +300,9 @@ class Report:
         if extra:
             self.cov.update(extra)
         wall = time.time() - self.t0
-        os.makedirs(os.path.join(VERIF, 'evidence'), exist_ok=True)
+        evdir = os.environ.get('VERIF_EVIDENCE_DIR',
+                               os.path.join(VERIF, 'evidence'))
+        os.makedirs(evdir, exist_ok=True)
         for f in self.known:
             if f['id'] in self.known_hit:
                 sigs = self.known_hit[f['id']]
@@ -311,7 +313,16 @@ class Report:
             k: len(v) for k, v in self.known_hit.items()
         }
         nviol = len(self.viol)
-        rdir = os.path.join(VERIF, 'replays', 'tmp')
+        classes = {}
+        for sig, _, _ in self.viol:
+            c = ':'.join(sig.split(':')[:2])
+            classes[c] = classes.get(c, 0) + 1
+        if classes:
+            self.cov['violation_classes'] = classes
+            for c, k in sorted(classes.items(), key=lambda x: -x[1])[:12]:
+                print(f'  violation class {c}: {k}')
+        rdir = os.environ.get('VERIF_REPLAY_DIR',
+                              os.path.join(VERIF, 'replays', 'tmp'))
         shown = 0
         for sig, desc, replay in self.viol:
             if shown >= 25:
@@ -347,8 +358,7 @@ class Report:
             'wall_s': round(wall, 2),
             'violations': nviol,
         }
-        with open(os.path.join(VERIF, 'evidence', f'{self.pid}.json'),
-                  'w') as fh:
+        with open(os.path.join(evdir, f'{self.pid}.json'), 'w') as fh:
             json.dump(ev, fh, indent=1, default=str)
         print(f'[{self.pid}] tier={self.tier} evaluations='
               f'{self.cov["evaluations"]} distinct_nontrivial='
@@ -378,3 +388,37 @@ def main_wrapper(fn):
         print('MACHINERY-ERROR:', e, file=sys.stderr)
         sys.exit(2)
     sys.exit(rc)
+
+
+def tlc_generate(rep, module, cfg, *, timeout=1800, prefilter='done = TRUE',
+                 files=(), workers=None):
+    """Model-check `module` with `cfg` (its invariants are the model's own
+    sanity properties), dump the state graph and yield the parsed final
+    states.  A violated model property is a machinery failure, not a finding
+    about ddSMT."""
+    import tlaval
+    dump = os.path.join(subscratch('dump'), cfg + '.out')
+    res = run_tlc(module, cfg, dump=dump, timeout=timeout, name=cfg,
+                  files=files, workers=workers)
+    if res.violated:
+        raise MachineryError(
+            f'{module} violates its own sanity property {res.violated}:\n' +
+            tlc_counterexample(res.output))
+    rep.add_tlc(res, cfg)
+    try:
+        for st in tlaval.iter_dump(dump + '.dump', prefilter=prefilter):
+            yield st
+    finally:
+        try:
+            os.remove(dump + '.dump')
+        except OSError:
+            pass
+
+
+def std_args():
+    import argparse
+    ap = argparse.ArgumentParser()
+    ap.add_argument('--tier', default=os.environ.get('VERIF_TIER', 'quick'),
+                    choices=['quick', 'thorough'])
+    ap.add_argument('--replay')
+    return ap.parse_args()
